@@ -72,6 +72,10 @@ func init() {
 			}
 			return Value{}, true
 		},
+		"vStall": func(g *Goroutine, c *frame, fn *ssa.Function, a []Value) (Value, bool) {
+			g.yield()
+			return Value{}, true
+		},
 		"vYield": func(g *Goroutine, c *frame, fn *ssa.Function, a []Value) (Value, bool) {
 			g.yield()
 			return Value{}, true
